@@ -206,11 +206,11 @@ func (e *Executor) parseQuery(
 
 	doc, err := parser.ParseQueryWithTokenLimit(&ast.Source{Input: query}, e.parserTokenLimit)
 	if err != nil {
-		gqlErr, ok := err.(*gqlerror.Error)
-		if ok {
-			errcode.Set(gqlErr, errcode.ParseFailed)
-			return nil, gqlerror.List{gqlErr}
-		}
+		// the parser reports an exceeded token limit as a plain error, not a *gqlerror.Error;
+		// it must stop the request all the same instead of running the truncated document.
+		gqlErr := gqlerror.WrapIfUnwrapped(err)
+		errcode.Set(gqlErr, errcode.ParseFailed)
+		return nil, gqlerror.List{gqlErr}
 	}
 	stats.Parsing.End = graphql.Now()
 
